@@ -5,6 +5,7 @@ package layer
 import (
 	"os"
 
+	"github.com/containerd/stargz-snapshotter/fs/reader"
 	"github.com/containerd/stargz-snapshotter/metadata"
 	"github.com/hanwen/go-fuse/v2/fuse"
 )
@@ -21,3 +22,12 @@ func VerifEntryToAttrC02(ino uint64, e metadata.Attr) (fuse.Attr, uint32) {
 
 // VerifFileModeToSystemModeC02 exposes fileModeToSystemMode.
 func VerifFileModeToSystemModeC02(m os.FileMode) uint32 { return fileModeToSystemMode(m) }
+
+// VerifLayerReaderC02 returns the reader a resolved layer hands to its FUSE nodes (nil before Verify/SkipVerify).
+func VerifLayerReaderC02(l Layer) reader.Reader {
+	lr, ok := l.(*layerRef)
+	if !ok {
+		return nil
+	}
+	return lr.layer.r
+}
